@@ -12,7 +12,7 @@ CONSTANTS Comp = "multi"
   NBuf = 2
   Gaps <- G_6_31
   Strict = TRUE
-  D = 5
+  D = 6
 INIT Init
 NEXT Next
 VIEW viewE
